@@ -184,6 +184,10 @@ NAMED_XS = {
     # one side of the unit square as [H][g][h][h][g][H] with h = 1/512, g = 8h, H = 247h: a tiny element at distance 8h from a
     # neighbour-of-neighbour 247 times its size (very unequal, close, disjoint panels on one straight side)
     'uneq': tuple(k / 512 for k in (0, 247, 255, 256, 257, 265, 512)) + (2.0, 3.0, 4.0),
+    # two small elements (1/16 of the side) at either end of the FIRST side of a polygon, the rest of the side in one piece: small
+    # far-apart panels on one long straight side without the hundreds of elements of a uniform level-4 refinement
+    'ends': lambda g: tuple(float(v) for v in (0.0, g.pw_start[1] / 16, g.pw_start[1] / 8, g.pw_start[1] - g.pw_start[1] / 8,
+                                               g.pw_start[1] - g.pw_start[1] / 16)) + tuple(float(v) for v in g.pw_start[1:]),
 }
 
 
@@ -195,6 +199,8 @@ def fresh(cfg):
     _, cname, xs, ts, pre = cfg
     if isinstance(pre, str) and pre.startswith('xs:'):
         xs, pre = NAMED_XS[pre[3:]], ''
+        if callable(xs):
+            xs = xs(curve(cname))
     m = MeshParametrized(curve(cname), initial_space_mesh=None if xs is None else list(xs),
                          initial_time_mesh=list(ts))
     if pre == 'driver':  # example.py: split the long sides of the L-shape
